@@ -16,9 +16,12 @@ CHECKS = {
     "C08": dict(engine="S", text="regrid_spec / interp / rotate executed on symbolic spectra with the xarray interpolation replaced by a differential-tested 1-D linear contract; z3 proves the output equals the periodic-linear reference bin by bin (exact on nodes, both seam neighbours used), non-negativity, zero above fmax, Hs conservation under maintain_m0, whole-bin rotation == circular shift", ref="6/C08"),
     "C09": dict(engine="S", text="PTM4 with symbolic wind speed (the boundary celerity = wind component is a satisfying assignment, not a sampled accident), bbox with all box limits symbolic, split/PTM5 on listed on- and off-node cutoffs: z3 proves every bin is assigned by the stated rule, partitions are disjoint and sum to the input, overlapping boxes raise", ref="6/C09"),
     "C10": dict(engine="S", text="relational symbolic runs of the real statistics on S and kS (k symbolic for polynomial statistics), on S and S with relabelled directions, plus Cauchy-Schwarz bounds proven as generic lemmas and instantiated on the implementation's outputs, and scale_by_hs with symbolic coefficients and range limits", ref="6/C10"),
+    "C12": dict(engine="S", text="from_ww3/from_ncswan/from_wwm/from_era5/from_ndbc and the read_dataset dispatcher executed on in-memory native datasets with symbolic densities, winds and directional moments: z3 proves every output bin is the unit-converted native bin at its converted physical direction, the variance integrals in native and converted units agree, winds are speed / coming-from direction, missing ERA5 values become 0", ref="6/C12"),
     "C14": dict(engine="S", text="Dataset.spec.sel (nearest, idw, bbox) executed through the public API with symbolic station and query longitudes/latitudes and symbolic tolerance, both longitude conventions independently as preconditions: z3 proves the selected stations are those of the circular-distance / box oracle, weights are 1/d, failures happen exactly beyond the tolerance, longitudes come back in the query's convention", ref="6/C14"),
     "C16": dict(engine="S", text="the real smooth_spec (xarray rolling mean) is executed on symbolic spectra for every window/grid in the bound; z3 proves each output bin equals the circular window mean (or lies within the neighbourhood's min/max at the edges), identity for window 1, commutation with circular shifts; even windows must raise", ref="6/C16"),
 }
+
+CHECKS["C17"] = dict(engine="S", text="every catalogue operation, the three selections (symbolic query longitudes in either convention passed as caller-owned numpy buffers), the reader helpers and the stacking helper are executed on symbolic data along every feasible path; deep snapshots of all argument objects (cells as terms, buffers, coordinates, attributes, encodings, dims, names) taken before the call must still describe them afterwards", ref="6/C17")
 
 NOT_APPLICABLE = {
     "C07": "dask graph construction, rechunking and thread schedules live in dask/xarray internals; no engine here can make chunkings or thread interleavings symbolic (z3 is not thread safe, Engine S pins the synchronous scheduler) - see DESIGN.md section 7",
